@@ -81,6 +81,7 @@ def run(chk):
     class FakeConn(object):
         pass
     per_release = {}
+    conns = {}
     shared_ctx = ConnectionContext(protocol_version=757)
     rng = random.Random(chk.seed)
     rows = list(rows)
@@ -137,6 +138,30 @@ def run(chk):
             chk.violation('ref:layout:%s:%s' % (d, k), '%s: pyCraft writes %s, the published layout gives %s'
                           % (where, got[:48].hex(), payload[:48].hex()), {'row': row, 'written': list(got)})
             continue
+        # ---- the same through Connection.write_packet, with a packet object that carries the context of another
+        #      release (re-used from an earlier connection, or constructed with one): the connection's release decides
+        if d == 'sb' and p in mc.SUPPORTED_PROTOCOL_VERSIONS:
+            other = releases[(releases.index(p) + 1 + i % (len(releases) - 1)) % len(releases)]
+            stale = ConnectionContext(protocol_version=other)
+            c = conns.get(p)
+            if c is None:
+                c = conns[p] = conn.Connection('localhost', 25565, allowed_versions={p})
+            for mode in ('stale', 'fresh'):
+                pk2 = cls(context=stale) if mode == 'stale' else cls()
+                for (attr, ty, v) in row['fields']:
+                    setattr(pk2, attr, vals[attr])
+                c.socket = Sink()
+                try:
+                    c.write_packet(pk2, force=True)
+                    data2 = c.socket.value()
+                except Exception as e:      # noqa
+                    data2 = repr(e).encode()
+                chk.evaluations += 1
+                if data2 != data:
+                    chk.violation('ref:connection-write:%s:%s' % (mode, k), '%s: written through Connection.write_packet with a %s packet object '
+                                  '(context of protocol %d) gives %s, the published layout gives %s'
+                                  % (where, mode, other, data2[:40].hex(), data[:40].hex()), {'row': row, 'other': other})
+            c.socket = None
         # ---- read the reference bytes
         try:
             pb = PacketBuffer()
